@@ -145,7 +145,9 @@ def scan_semaphore_sites(repo, tier, seed):
                     walk(ch, sc)
             walk(tree, [])
     ok_c = sorted(set(create)) == ["loky/backend/synchronize.py:SemLock.__init__"]
-    ok_u = set(unlink) <= {"loky/backend/synchronize.py:SemLock._cleanup", "loky/backend/resource_tracker.py:<module>", "loky/backend/synchronize.py:<module>"} \
+    # SemLock.__init__ since the F22 fix: its contract pins what it may unlink (only the semaphore it created and failed to register, only when it raises)
+    ok_u = set(unlink) <= {"loky/backend/synchronize.py:SemLock._cleanup", "loky/backend/synchronize.py:SemLock.__init__", "loky/backend/resource_tracker.py:<module>",
+                           "loky/backend/synchronize.py:<module>"} \
         and "loky/backend/synchronize.py:SemLock._cleanup" in unlink
     tree = _scan(repo, "loky/backend/synchronize.py")
     bases = {n.name: [_ast.unparse(b) for b in n.bases] for n in tree.body if isinstance(n, _ast.ClassDef)}
@@ -258,6 +260,35 @@ def scan_table_snapshots(repo, tier, seed):
     return [ob]
 
 
+def scan_pending_snapshots(repo, tier, seed):
+    """The table of pending work items is shared by the manager thread, the submitting threads (under the shutdown lock) and the feeder thread, whose
+    error handler pops an item whenever a task cannot be sent: every loop / comprehension over it runs on a snapshot (list(...)), never on the live
+    dict (a removal between two steps raises 'dictionary changed size during iteration' in the manager thread: it dies, the remaining futures of a
+    broken pool are never failed, the workers never killed)."""
+    import re
+    pat = re.compile(r"(\._?pending_work_items$)|((^|\.)_?pending_work_items\.(values|items|keys)\(\)$)")
+    bad, good = [], 0
+    for rel in ("loky/process_executor.py", "loky/reusable_executor.py"):
+        tree = _scan(repo, rel)
+        for n in _ast.walk(tree):
+            iters = []
+            if isinstance(n, _ast.For):
+                iters.append(n.iter)
+            elif isinstance(n, (_ast.ListComp, _ast.SetComp, _ast.GeneratorExp, _ast.DictComp)):
+                iters += [g.iter for g in n.generators]
+            for it in iters:
+                txt = _ast.unparse(it)
+                if pat.search(txt):
+                    bad.append(f"{rel}:{it.lineno}: {txt}")
+                elif isinstance(it, _ast.Call) and _ast.unparse(it.func) in ("list", "tuple", "sorted") and it.args and pat.search(_ast.unparse(it.args[0])):
+                    good += 1
+    ob = _ob("loky.process_executor:<module>:structural/pending-work-items-iterated-through-snapshots-only", not bad,
+             f"live iterations: {bad}; snapshot iterations: {good}")
+    if bad and any("process_executor.py" in b for b in bad):
+        ob["replay"] = {"harness": "pending_table_iteration", "inputs": {}}
+    return [ob]
+
+
 def scan_after_fork_hook(repo, tier, seed):
     """C05 (fork start method): a forked worker inherits the parent's registry of manager threads, whose entries hold a copy of the shutdown lock that
     submit() holds while it spawns; the worker's own _python_exit() at exit would block on it for ever. The module registers an after-fork hook that must
@@ -303,7 +334,7 @@ PROPS["C02"] = dict(
                 "the feeder and user threads (A-atomic); futures already resolved are untouched only in the sense that no set_result/other set_exception occurs.",
     assumptions=["A-atomic", "A-kernel", "A-alias", "A-pids", "A-posix"],
     abstractions=EXEC_ABS,
-    extra=[scan_table_snapshots, scan_manager_fields],
+    extra=[scan_table_snapshots, scan_manager_fields, scan_pending_snapshots],
 )
 PROPS["C04"] = dict(
     proved="for every exception class a task can raise (any BaseException subclass, user classes included) the worker sends exactly one _ResultItem carrying the "
